@@ -176,7 +176,7 @@ Scalar MASA::cp_normal<Scalar>::eval_posterior(Scalar x)
 template <typename Scalar>
 Scalar MASA::cp_normal<Scalar>::factorial(int n)
 {
-  return (n == 1 || n == 0) ? 1 : factorial(n - 1) * n;
+  return (n <= 1) ? 1 : factorial(n - 1) * n;
 }
 
 template <typename Scalar>
